@@ -72,7 +72,7 @@ Definition R_collateral_amount_alonzo : Prop :=
     (forall c' ma, u_val o = VMulti c' ma -> ma = []).
 (* Babbage/Conway: annotated total collateral is what is actually paid (inputs - return) *)
 Definition R_collateral_annotation (cw : bool) : Prop :=
-  pa_plutus cw t = true ->
+  pa_needs_collateral cw t = true ->
   forall c ci a, t_collateral t = Some c -> pa_sum_refs cw c u 403 403 = Ok ci -> t_total_coll t = Some a ->
     a = coin_of ci - match t_coll_return t with Some o => coin_of (o_val o) | None => 0 end.
 
@@ -133,7 +133,7 @@ Definition pa_scripts (cw : bool) (t : tx) : list Z :=
 Definition rules_pa (cw : bool) (t : tx) (u : utxo) (e : env) : Prop :=
   R_inputs_nonempty t /\ R_inputs_in_utxo t u /\ R_collateral_in_utxo t u /\ R_reference_in_utxo t u /\
   R_validity_interval t e /\ R_min_fee t e /\
-  R_collateral_count_kind t u e (pa_plutus cw t) (own_era cw) /\ R_collateral_annotation t u cw /\
+  R_collateral_count_kind t u e (pa_needs_collateral cw t) (own_era cw) /\ R_collateral_annotation t u cw /\
   R_min_ada_babbage t e /\ R_value_size t e /\ R_network_ids t e /\ R_tx_size t e /\ R_ex_units t e /\
   R_plutus_has_redeemers t (pa_plutus cw t) /\
   R_mint_witnessed t (pa_scripts cw t ++ ref_script_hashes cw t u) /\
